@@ -55,7 +55,8 @@ Ftp::ParseProtoIpPort(const char *buf, Ip::Address &addr)
     const char delim = *buf;
     const char *s = buf + 1;
     const char *e = s;
-    const int proto = strtol(s, const_cast<char**>(&e), 10);
+    // long: keep the value strtol() produced, do not narrow it before checking it
+    const long proto = strtol(s, const_cast<char**>(&e), 10);
     if ((proto != 1 && proto != 2) || *e != delim)
         return false;
 
@@ -78,14 +79,14 @@ Ftp::ParseProtoIpPort(const char *buf, Ip::Address &addr)
         return false;
 
     s = e + 1; // skip port delimiter
-    const int port = strtol(s, const_cast<char**>(&e), 10);
-    if (port < 0 || *e != '|')
+    const long port = strtol(s, const_cast<char**>(&e), 10);
+    if (port <= 0 || port > 65535 || *e != '|')
         return false;
 
     if (Config.Ftp.sanitycheck && port < 1024)
         return false;
 
-    addr.port(port);
+    addr.port(static_cast<unsigned short>(port));
     return true;
 }
 
